@@ -49,6 +49,11 @@ def jobs(tier):
     J.append(dict(side="long-history", L=1001))
     if tier != "quick":
         J.append(dict(side="long-history", L=1203))
+    # string-typed number -> DNA on a number just beyond the interpreter's int <-> str digit limit (4300 digits): concrete probe,
+    # bug hunting only -- the repeated division must stay digit-serial at every length ("at any length" in the property)
+    J.append(dict(side="wide-string", D=4301))
+    if tier != "quick":
+        J.append(dict(side="wide-string", D=4400, to="bit"))
     # wide integer-typed paths: beyond 2^53 (binary64) and 2^63 (int64) -- machine-number pitfalls
     for L in ((56,) if tier == "quick" else (54, 56, 64)):
         for pat in ("max", "mix"):
@@ -64,7 +69,8 @@ def jobs(tier):
 def bounds(tier):
     js = jobs(tier)
     return {"bits": "L <= %d" % max(j.get("L", 0) for j in js), "dna": "n <= %d" % max(j.get("n", 0) for j in js),
-            "decimal strings": "<= %d digits" % max(j.get("D", 0) for j in js), "outside": "longer inputs (rest on C15's digit-serial helpers)"}
+            "decimal strings": "<= %d digits" % max(j.get("D", 0) for j in js if j["side"] != "wide-string"),
+            "concrete probes (not deciding)": "1001/1203-bit arrays; one 4301-digit (thorough: also 4400-digit) decimal string rendered as DNA / bits", "outside": "longer inputs (rest on C15's digit-serial helpers)"}
 
 
 def wide_positions(n):
@@ -118,6 +124,50 @@ def body_long_history(e, L, cfg):
     return {"status": "ok", "sample": {"long-history": "two %d-bit numpy arrays differing in the middle, string path" % n}}
 
 
+def wide_string_number(D):
+    return ("7301942685" * (D // 10 + 1))[:D]
+
+
+def body_wide_string(e, L, cfg):
+    """concrete probe (bug hunting, not deciding): number_to_dna / number_to_bit of a D-digit decimal string (D beyond the
+    interpreter's 4300-digit int <-> str limit), called under the interpreter's DEFAULT limit, against the base-4 / base-2
+    expansion computed with Python integers"""
+    D, to = cfg["D"], cfg.get("to", "dna")
+    base = 4 if to == "dna" else 2
+    number = wide_string_number(D)
+    old = sys.get_int_max_str_digits() if hasattr(sys, "get_int_max_str_digits") else None
+    if old is not None:
+        sys.set_int_max_str_digits(0)
+    v = int(number)
+    width = 1
+    while base ** width <= v:
+        width += 1
+    width += 3           # three symbols of left padding
+    digs, x = [], v
+    for _ in range(width):
+        digs.append(x % base)
+        x //= base
+    digs.reverse()
+    cex = {"kind": "conv", "fn": "wide-string", "D": D, "to": to}
+    try:
+        if old is not None:
+            sys.set_int_max_str_digits(4300 if old == 0 else old)
+        r = (L.number_to_dna if to == "dna" else L.number_to_bit)(strs.K(number), width)
+        got = [("ACGT".index(c) if c in "ACGT" else -1) for c in str(r)] if to == "dna" else [int(core.concrete_int(b) if core.is_sym(b) else b) for b in r]
+    except core.Abort:
+        raise
+    except core.Inconclusive:
+        raise
+    except Exception as ex:
+        return {"status": "viol", "why": "number_to_%s raised %s on a %d-digit decimal string" % (to, type(ex).__name__, D), "cex": cex}
+    finally:
+        if old is not None:
+            sys.set_int_max_str_digits(old)
+    if got != digs:
+        return {"status": "viol", "why": "number_to_%s of a %d-digit decimal string is not its padded base-%d expansion" % (to, D, base), "cex": cex}
+    return {"status": "ok", "sample": {"wide-string": "%d-digit decimal string -> %d %s" % (D, width, "nucleotides" if to == "dna" else "bits")}}
+
+
 def _decimal_of(v):
     """decimal rendering without the interpreter's int <-> str limit getting in the way"""
     if isinstance(v, str):
@@ -137,6 +187,8 @@ def body(e, L, cfg):
     side = cfg["side"]
     if side == "long-history":
         return body_long_history(e, L, cfg)
+    if side == "wide-string":
+        return body_wide_string(e, L, cfg)
     if side == "bits":
         n = cfg["L"]
         bs = oracles.bits(n) if not cfg.get("int_only") else wide_symbols(n, 2, cfg.get("pattern", "max"), "m")
